@@ -616,6 +616,10 @@ class Interp:
             if isinstance(a, bool): a = int(a)
             if isinstance(b, bool): b = int(b)
             if name == 'FloorDiv': return _z3_floordiv(a, b)
+            if name == 'Div':
+                ra = z3.ToReal(a) if isinstance(a, z3.ArithRef) and a.is_int() else (z3.RealVal(a) if not isinstance(a, z3.ExprRef) else a)
+                rb = z3.ToReal(b) if isinstance(b, z3.ArithRef) and b.is_int() else (z3.RealVal(b) if not isinstance(b, z3.ExprRef) else b)
+                return ra / rb
             if name == 'Mod': return a % b
             if name in ('Add', 'Sub', 'Mult'): return _BINOPS[op](a, b)
             raise Outside(f'binop {name} on z3 terms')
